@@ -14,7 +14,7 @@ ID = "C05"
 BUDGET = {"quick": 1800, "thorough": 60000}
 REQUIRED = ["contract:VertexList.add", "judged:shared-node", "judged:merged-pair-disjoint", "judged:insertion-order-pair",
             "judged:near-miss-kept-apart", "judged:slave-copy-shared-on-slave-side", "judged:direct-add-permuted-patches",
-            "judged:pairs-meeting-at-a-node", "judged:merge-declared-after-first-assembly",
+            "judged:pairs-meeting-at-a-node", "judged:merge-declared-after-first-assembly", "judged:pairs:shared-master", "judged:pairs:chained", "judged:history:backport-then-one-operation-moved",
             "judged:all-insertion-orders-of-a-small-assembly"]
 MIN_KEYS = 40
 RULE = (
@@ -65,7 +65,7 @@ def gen_case(ctx):
     npairs = rng.choice([0, 1, 1, 2, 3]) if contacts else 0
     planes = sorted({(c[0], c[1]) for c in contacts})
     rng.shuffle(planes)
-    pairs = []
+    pairs, pair_planes = [], []
     for pi, plane in enumerate(planes[:npairs]):
         m, s = f"m{pi}", f"s{pi}"
         flip = rng.random() < 0.5
@@ -82,6 +82,20 @@ def gen_case(ctx):
             used = True
         if used:
             pairs.append([m, s])
+            pair_planes.append(plane)
+    # several pairs: now and then they share their master patch (one master merged with two slaves), or they are chained
+    # (the slave patch of the first pair is the master patch of the second)
+    case["pair_style"] = "separate"
+    if len(pairs) >= 2 and rng.random() < 0.5:
+        # (chained only across parallel planes: where the two planes cross, a corner would be on the doubly-used patch in
+        # both roles at once, a configuration the statement does not define)
+        parallel = len(pairs) == 2 and pair_planes[0][0] == pair_planes[1][0]
+        style = rng.choice(["shared-master", "chained"]) if parallel else "shared-master"
+        ren = {pairs[1][0]: pairs[0][0]} if style == "shared-master" else {pairs[0][1]: "x01", pairs[1][0]: "x01"}
+        for blk in blocks:
+            blk["patches"] = {sd: ren.get(nm, nm) for sd, nm in blk["patches"].items()}
+        pairs = [[ren.get(a, a), ren.get(b, b)] for a, b in pairs]
+        case["pair_style"] = style
     # plain patches on free sides
     for blk in blocks:
         for name in hexconv.SIDE_NAMES:
@@ -104,6 +118,7 @@ def gen_case(ctx):
     case["order2"] = order2
     case["far"] = far
     case["late_merge"] = rng.random() < 0.4
+    case["bp_move"] = rng.randrange(1000) if rng.random() < 0.25 else None
     case["all_orders"] = rng.random() < 0.25
     return case
 
@@ -173,9 +188,62 @@ def partition_from_file(ctx, case, order, tag):
     return parsed, mesh
 
 
+def backport_move_history(ctx, case):
+    """history: assemble, back-port (nothing moved), move ONE operation away through its own translate(), clear, write:
+    the moved block now has eight vertices of its own, every other block is where it was"""
+    import copy
+
+    import classy_blocks as cb
+
+    nblocks = len(case["blocks"])
+    k = case["bp_move"] % nblocks
+    mesh, ops = build(case, cb, list(range(nblocks)))
+    mesh.assemble()
+    mesh.backport()
+    size = max(1.0, float(np.max(np.abs(np.array(case["blocks"][k]["pts"])))))
+    D = np.array([0.0, 0.0, 37.0 + 3.0 * size])
+    ops[k].translate(list(D))
+    mesh.clear()
+    path = util.tmpfile("c05h")
+    got, err = util.write_outcome(mesh, path)
+    ctx.evaluated()
+    ctx.count("judged:history:backport-then-one-operation-moved")
+    if got != "success":
+        util.rm(path)
+        ctx.violation(f"write-failed:{got}:after-backport-and-move", f"{err}")
+        return
+    parsed = foamdict.read_blockmesh(path)
+    util.rm(path)
+    case2 = copy.deepcopy(case)
+    case2["blocks"][k]["nodes"] = [f"moved{n}" for n in case["blocks"][k]["nodes"]]
+    case2["blocks"][k]["pts"] = [[p[a] + D[a] for a in range(3)] for p in case["blocks"][k]["pts"]]
+    keys = model_keys(case2)
+    key2idx = {}
+    for bi in range(nblocks):
+        idx = parsed["blocks"][bi]["idx"]
+        for c in range(8):
+            want = np.array(case2["blocks"][bi]["pts"][c])
+            have = np.array(parsed["vertices"][idx[c]]["pos"])
+            if not float(np.max(np.abs(want - have))) <= 1e-6 * (1 + float(np.max(np.abs(want)))):
+                ctx.violation("corner-position-after-backport-and-move" + (":moved-block" if bi == k else ":other-block"),
+                              f"block {bi} corner {c} written at {have.tolist()}, expected {want.tolist()} (block {k} was moved by {D.tolist()})")
+                return
+            if key2idx.setdefault(keys[bi][c], idx[c]) != idx[c]:
+                ctx.violation("same-point-two-vertices:after-backport-and-move", f"node {keys[bi][c][0]}: vertices {key2idx[keys[bi][c]]} and {idx[c]}")
+                return
+    if len(set(key2idx.values())) != len(key2idx):
+        ctx.violation("distinct-points-share-a-vertex:after-backport-and-move",
+                      f"{len(key2idx)} distinct (node, slave-set) in the model, {len(set(key2idx.values()))} vertices used; block {k} was moved by {D.tolist()}")
+
+
 def run_case(ctx, case):
     contracts.install(ctx)
     contracts.install_vertexlist(ctx)
+    if case.get("bp_move") is not None and not case.get("near"):
+        n0 = sum(ctx.mech_counts.values())
+        backport_move_history(ctx, case)
+        if sum(ctx.mech_counts.values()) > n0:
+            return
     keys = model_keys(case)
     nblocks = len(case["blocks"])
     results = []
@@ -233,13 +301,27 @@ def run_case(ctx, case):
             return
         # merged pairs: master quads and slave quads share no vertex
         patches = {p["name"]: p for p in parsed["boundary"]}
+        # (judged per contact: with a shared master or chained pairs one block may be on the slave side of one plane and on
+        # the master side of another, so whole patches may legitimately have a vertex in common along the planes' intersection)
+        blks = case["blocks"]
+        for x, y in itertools.combinations(range(nblocks), 2):
+            common = set(blks[x]["nodes"]) & set(blks[y]["nodes"])
+            if len(common) != 4:
+                continue
+            sx, sy = side_of(blks[x], common), side_of(blks[y], common)
+            nx_, ny_ = blks[x]["patches"].get(sx), blks[y]["patches"].get(sy)
+            if [nx_, ny_] not in case["pairs"] and [ny_, nx_] not in case["pairs"]:
+                continue
+            vx = {parsed["blocks"][order.index(x)]["idx"][c] for c in hexconv.SIDES[sx]}
+            vy = {parsed["blocks"][order.index(y)]["idx"][c] for c in hexconv.SIDES[sy]}
+            ctx.count("judged:merged-contact-disjoint")
+            if vx & vy:
+                ctx.violation("master-and-slave-quads-share-vertices", f"{tag}: blocks {x} ({nx_}) and {y} ({ny_}) face each other across a merged pair but share vertices {sorted(vx & vy)}")
+                return
         for m, s in case["pairs"]:
             mv = {i for q in patches.get(m, {"faces": []})["faces"] for i in q}
             sv = {i for q in patches.get(s, {"faces": []})["faces"] for i in q}
             ctx.count("judged:merged-pair-disjoint")
-            if mv & sv:
-                ctx.violation("master-and-slave-quads-share-vertices", f"{tag}: pair ({m} {s}) shares vertices {sorted(mv & sv)}")
-                return
             if not mv or not sv:
                 ctx.violation("merged-patch-without-faces", f"{tag}: pair ({m} {s}): {len(mv)} / {len(sv)} vertices")
                 return
@@ -273,7 +355,9 @@ def run_case(ctx, case):
     if case["near"]:
         ctx.count("judged:near-miss-kept-apart")
     nslave_blocks = len({bi for v in slave_keys.values() for bi in v})
-    ctx.key([lattice.contact_summary(case), len(case["pairs"]), nslave_blocks, bool(case["near"]), case["far"]], nontrivial=shared > 0)
+    if case.get("pair_style", "separate") != "separate":
+        ctx.count("judged:pairs:" + case["pair_style"])
+    ctx.key([lattice.contact_summary(case), len(case["pairs"]), case.get("pair_style"), nslave_blocks, bool(case["near"]), case["far"]], nontrivial=shared > 0)
     ctx.sample({"blocks": [{"cell": b["cell"], "perm": b["perm"], "patches": b["patches"]} for b in case["blocks"]],
                 "pairs": case["pairs"], "near_miss": case["near"], "order2": case["order2"]})
     direct_add(ctx, case)
